@@ -20,6 +20,10 @@ for m in MODULES:
             # streamz/dask.py re-exports these nodes unchanged for Dask pipelines (`class X(DaskStream, core.X): pass`, checked
             # syntactically in c_dask.py): their step contracts are what makes the Dask pipeline equivalent to the local one
             props.add('C20')
+        if 'C04' in props:
+            # C09 (commit only after complete processing, at-least-once) is the hold discipline of every node that may sit below
+            # the Kafka source composed with the commit-value contract (DESIGN section 6, C09; lemma L-HOLD)
+            props.add('C09')
         if 'C03' in props:
             # what a step hands back to the emitter (C03) is also what makes asynchronous consumers run at all (C02) and what
             # carries their failures back (C16)
